@@ -804,9 +804,20 @@ func siMergeRet(cur, r string) string {
 	return "variants-differ"
 }
 
+// siBlankEv is the event skeleton; op-specific fields (b for Info, c0/c1 for CloneSwap, alias/self
+// for MutRes) are present only on events of that operation and the judge reads them only there.
 func siBlankEv(caseID, i int, op Op) Ev {
-	return Ev{"ev": "step", "case": caseID, "i": i, "op": op, "ret": "", "pmsg": "", "reg": []map[string]interface{}{},
-		"h0": "", "h1": "", "own": []map[string]interface{}{}, "b": "", "c0": "", "c1": "", "alias": false, "self": false}
+	ev := Ev{"ev": "step", "case": caseID, "i": i, "op": op, "ret": "", "reg": []map[string]interface{}{},
+		"h0": "", "h1": "", "own": []map[string]interface{}{}}
+	switch op.Name() {
+	case "Info":
+		ev["b"] = ""
+	case "CloneSwap":
+		ev["c0"], ev["c1"] = "", ""
+	case "MutRes":
+		ev["alias"], ev["self"] = false, false
+	}
+	return ev
 }
 
 // step executes one abstract operation on every variant registry and projects the outcome.
@@ -952,7 +963,10 @@ func (c *siChild) step(i int, op Op, quiet bool) Ev {
 	default:
 		ret = "unknown-op"
 	}
-	ev["ret"], ev["pmsg"] = ret, pmsg
+	ev["ret"] = ret
+	if pmsg != "" {
+		ev["pmsg"] = pmsg
+	}
 	if !quiet {
 		ev["own"] = groups.list()
 		ev["reg"] = c.project()
